@@ -219,6 +219,15 @@ def make_replay(uid, um, unit, p, r, o, lab, work):
     rp = {'property': uid, 'obligation': '%s/%s/%s' % (uid, p.enforce or p.entry, lab), 'cbmc_property': o['name'], 'description': o.get('description'),
           'proof': p.id, 'function': fn, 'checker_cmd': p.checker_cmd(), 'verifier_output': {'status': o['status'], 'trace_tail': (o.get('trace') or [])[-60:]},
           'inputs': None, 'reproduced': False, 'path': path}
+    # counterexample trace of this one obligation (requested separately: the JSON UI would build one per failure)
+    try:
+        from .runner import get_trace
+        tr = get_trace(p, o['name'], timeout=int(os.environ.get('VERIF_TRACE_TIMEOUT', '300')))
+        if tr:
+            o['trace'] = tr
+            rp['verifier_output']['trace_tail'] = tr[-60:]
+    except Exception as e:
+        rp['trace_error'] = '%s: %s' % (type(e).__name__, e)
     # the unit may know how to turn this failure into a concrete input and replay it on the real library
     try:
         if hasattr(um, 'find_input'):
